@@ -166,6 +166,25 @@ def peek_eq_switch(lib, body, br, blk):
     return None
 
 
+def peek_is_switch(body, br, blk):
+    """`matches!(self.peek(k), Token::X)` / `if let Token::X = self.peek(k)`: a discriminant switch on peek(k) with one
+    named edge. Returns (token, k, true target, false target) like peek_eq_switch."""
+    ve = br.variant_edges(blk)
+    if ve and ve["adt"] == TOKEN and len(ve["edges"]) == 1 and ve["scrutinee"]:
+        (nm, tgt), = ve["edges"].items()
+        looks = set()
+        for sx in ve["scrutinee"]:
+            if sx[0] == "call" and sx[1] == P + "peek" and len(sx[2]) == 2:
+                for kk in sx[2][1]:
+                    if kk[0] == "const":
+                        looks.add(kk[1])
+            else:
+                looks.add(None)
+        if len(looks) == 1 and None not in looks and tgt != ve["otherwise"]:
+            return (nm, next(iter(looks)), tgt, ve["otherwise"])
+    return None
+
+
 # ---------------------------------------------------------------------------
 # token-level path enumeration (C03 separator / emptiness / closer discipline)
 # ---------------------------------------------------------------------------
